@@ -841,6 +841,10 @@ impl Rasn {
                 details: "Named bits should be resolved by this point!".into(),
                 kind: crate::prelude::GeneratorErrorType::Unidentified,
             }),
+            ASN1Value::BitString(b) if b.is_empty() => {
+                // An empty array literal does not let rustc infer the item type
+                Ok(quote!(core::iter::empty::<bool>().collect()))
+            }
             ASN1Value::BitString(b) => {
                 let bits = b.iter().map(|bit| bit.to_token_stream());
                 Ok(quote!([#(#bits),*].into_iter().collect()))
